@@ -4,6 +4,7 @@ import (
 	"encoding/json"
 	"math"
 	"math/big"
+	"strings"
 )
 
 func pow2(k uint) *big.Int { return new(big.Int).Lsh(big.NewInt(1), k) }
@@ -262,7 +263,7 @@ func RandValue(r *Rand, o GenOpts, depth int) any {
 // with each leaf-carrier policy applied uniformly.
 func Carriers(v any) []any {
 	out := []any{v}
-	for policy := 1; policy <= 2; policy++ {
+	for policy := 1; policy <= 3; policy++ {
 		w, changed := recarrier(v, policy)
 		if changed {
 			out = append(out, w)
@@ -276,6 +277,13 @@ func recarrier(v any, policy int) (any, bool) {
 	case int:
 		if policy == 1 {
 			return big.NewInt(int64(v)), true
+		}
+		if policy == 3 {
+			// policy 3: spellings a JSON text may use that are not the canonical one
+			if v == 0 {
+				return json.Number("-0"), true
+			}
+			return v, false
 		}
 		return json.Number(big.NewInt(int64(v)).String()), true
 	case *big.Int:
@@ -296,6 +304,19 @@ func recarrier(v any, policy int) (any, bool) {
 			}
 			if !hasFrac {
 				s += ".0"
+			}
+			return json.Number(s), true
+		}
+		if policy == 3 && !math.IsNaN(v) && !math.IsInf(v, 0) {
+			b, _ := json.Marshal(v)
+			s := string(b)
+			if strings.ContainsAny(s, "eE") {
+				// 1e+21 -> 1.0E21 style: same value, other spelling
+				s = strings.Replace(strings.Replace(s, "e+", "E", 1), "e-", "E-", 1)
+			} else if strings.Contains(s, ".") {
+				s += "00"
+			} else {
+				s += "e0"
 			}
 			return json.Number(s), true
 		}
